@@ -12,6 +12,7 @@ import argparse, json, os, re, shutil, subprocess, sys, tempfile, time
 
 HERE = os.path.dirname(os.path.dirname(os.path.abspath(__file__)))
 SEEDED = os.path.join(HERE, "seeded")
+RESULTS_NAME = "RESULTS.json"
 
 
 def scratch_copy(patch=None):
@@ -56,9 +57,9 @@ def verify(name):
     return out["confirmed"]
 
 
-def run(names, all_props, tier, seed, save_regress=False):
+def run(names, all_props, tier, seed, save_regress=False, no_regress=False):
     props = [json.loads(l)["id"] for l in open(os.path.join(HERE, "properties.jsonl"))]
-    res_path = os.path.join(SEEDED, "RESULTS.json")
+    res_path = os.path.join(SEEDED, RESULTS_NAME)
     results = json.load(open(res_path)) if os.path.exists(res_path) else {}
     for name in names:
         sd = os.path.join(SEEDED, name)
@@ -72,7 +73,8 @@ def run(names, all_props, tier, seed, save_regress=False):
                 os.makedirs(out, exist_ok=True)
                 t = time.time()
                 r = subprocess.run([os.path.join(HERE, "check.py"), prop, "--tier", tier], cwd=HERE,
-                                   env=dict(os.environ, VERIF_REPO=repo, VERIF_OUT=out, VERIF_SEED=str(seed)),
+                                   env=dict(os.environ, VERIF_REPO=repo, VERIF_OUT=out, VERIF_SEED=str(seed),
+                                            **({"VERIF_NO_REGRESS": "1"} if no_regress else {})),
                                    capture_output=True, text=True)
                 v = [l for l in r.stdout.splitlines() if l.startswith(("violation:", "regression case fails:"))]
                 entry["checks"][prop] = {"exit": r.returncode, "secs": round(time.time() - t, 1), "tier": tier,
@@ -105,12 +107,17 @@ def main():
     ap.add_argument("--tier", default="quick")
     ap.add_argument("--seed", type=int, default=1)
     ap.add_argument("--save-regress", action="store_true")
+    ap.add_argument("--no-regress", action="store_true", help="skip the replay tier: measure the generated search alone")
+    ap.add_argument("--results", default=None)
     a = ap.parse_args()
     names = a.names or sorted(n for n in os.listdir(SEEDED) if os.path.isdir(os.path.join(SEEDED, n)))
     if a.cmd == "verify":
         ok = all([verify(n) for n in names])
         sys.exit(0 if ok else 1)
-    run(names, a.all_props, a.tier, a.seed, a.save_regress)
+    if a.results:
+        global RESULTS_NAME
+        RESULTS_NAME = a.results
+    run(names, a.all_props, a.tier, a.seed, a.save_regress, a.no_regress)
 
 
 if __name__ == "__main__":
